@@ -1,6 +1,6 @@
 """Mutants that survived an earlier version of the checks in the mutation sweep (tools/mutsweep.py) or were missed in the
 seeding rounds, each now reported by the obligation added in response (DESIGN.md section 10).  Same format as corpus.py."""
-from .corpus import (ADV, AMF, BGL, BS, EG, GG, GS, IT, LAG, M, MDM, MF, MO, PT, TC, TF, TO, UP, ER, add)
+from .corpus import (ADV, AMF, BGL, BM, BS, EG, GG, GS, IT, LAG, M, MDM, MF, MO, PT, TC, TF, TO, UP, ER, add)
 
 PRE = "fairlearn/adversarial/_preprocessor.py"
 
@@ -108,3 +108,6 @@ add("C09", R, GS, "                    (1.0 - self.constraint_weight) * self.obj
 add("C04", M, TC, '{"x": x_list, "y": y_list, "operation": operation_list}', '{"x": y_list, "y": x_list, "operation": operation_list}', "swept points with x and y exchanged")
 add("C05", M, TC, "    scores = list(data_sorted[SCORE_KEY])", "    scores = data_sorted[SCORE_KEY]", "label-indexed Series instead of a list")
 add("C04", R, TC, '        pd.DataFrame({"x": x_list, "y": y_list, "operation": operation_list})\n        .sort_values(by=["x", "y"])', '        pd.DataFrame({"operation": operation_list, "y": y_list, "x": x_list})\n        .sort_values(by=["x", "y"])', "column order of the points frame")
+add("C19", M, BGL, "        self.pos_basis = pd.DataFrame()\n        self.neg_basis = pd.DataFrame()\n", "        self.pos_basis = getattr(self, 'pos_basis', pd.DataFrame())\n        self.neg_basis = pd.DataFrame()\n", "basis frame survives a reload")
+add("C14", M, BM, "def true_negative_rate(y_true, y_pred, sample_weight=None, pos_label=None) -> float:", "def true_negative_rate(y_true, y_pred, pos_label=None, sample_weight=None) -> float:", "sibling signature deviates")
+add("C12", M, UP, "    if pd.notnull(control) and pd.notnull(event):", "    if control and pd.notnull(event):", "falsy control label dropped")
